@@ -151,6 +151,7 @@ struct Options {
 	bool immReduced = false;	// ... but only the reduced menus, and only on change/restart/resume ops
 	std::string mode;			// property-specific sub-mode
 	bool marks = false;			// external succeed()/fail() calls are part of the alphabet (always in mode "plans")
+	bool initialCancel = false;	// guards may veto the substitution rounds of the first activation (never its very first pass)
 };
 
 // a snapshot of what the public API reports (+ raw registry through the probe)
@@ -421,8 +422,11 @@ struct Engine {
 		if (e.monitoring && G().inCallback) G().inCallback(CB_GUARD, id, m, &c);
 		if (layer) return;
 		Globals& g = G();
-		const std::vector<Action>& menu = g.inInitial ? g.menuGuardInitial : g.menuGuard;
-		const int alt = e.choose(id, m, 0, (int) menu.size(), g.inInitial ? g.redGuardInitial : g.redGuard, false, N);
+		// the very first guard pass of the first activation has nothing pending and must not be cancelled (documented precondition);
+		// its substitution rounds evaluate requests like any other round and may be vetoed when --initial-cancel is given
+		const bool restricted = g.inInitial && !(g.opt.initialCancel && c.pendingTransitions().count() > 0);
+		const std::vector<Action>& menu = restricted ? g.menuGuardInitial : g.menuGuard;
+		const int alt = e.choose(id, m, 0, (int) menu.size(), restricted ? g.redGuardInitial : g.redGuard, false, N);
 		const Action& a = menu[alt];
 		if (a.type == A_CANCEL || a.type == A_CANCEL_REQ) {
 			e.rec(id, E_CANCEL, 0, -1, nullptr, m);
